@@ -252,13 +252,20 @@ func (r *Rec) Check(t *testing.T, n int, prop func(*rapid.T)) {
 	_ = flag.Set("rapid.checks", strconv.Itoa(n))
 	_ = flag.Set("rapid.seed", strconv.FormatUint(r.ShardSeed(), 10))
 	_ = flag.Set("rapid.nofailfile", "true")
+	ran := 0
 	rapid.Check(t, func(rt *rapid.T) {
 		r.Eval(1)
+		ran++
 		prop(rt)
 	})
 	r.mu.Lock()
 	r.flushLocked()
 	r.mu.Unlock()
+	// rapid stops early, still reporting success, when the test deadline comes close
+	// (5x the average iteration time): that is a shortfall, never a pass.
+	if ran < n && !t.Failed() {
+		t.Fatalf("INCONCLUSIVE: rapid ran only %d of the %d requested cases (test deadline too close)", ran, n)
+	}
 }
 
 // InconclusiveError is returned by a Replayer when the input could not be decided for
